@@ -746,3 +746,75 @@ func init() {
 		Outside: []string{"the YAML text level: which byte-level truncations and substitutions parse, and to what (gopkg.in/yaml.v2 uses reflection and is not encoded)", "crash points inside ioutil.WriteFile", "hangs inside the YAML parser"},
 	})
 }
+
+// c09Ops: operation index -> variants worth running
+var c09Names = []string{"packet loop (Parse+Notify)", "purge", "FindIP+row read", "GetHosts+row read", "FindByMAC", "FindMACEntry", "Capture", "Release", "IsCaptured", "IPAddrs", "DHCP offer accessors", "PrintTable", "DHCPv4Update", "name update", "Close"}
+
+func threadJobs(tier string) []Job {
+	c := Config{MaxLoop: 100, MaxWall: 1500, Preempt: -1, Stubs: map[string]bool{}}
+	if tier == "thorough" {
+		c.Preempt = 1
+	}
+	r := []string{"joined"}
+	var jobs []Job
+	add := func(a, va, b, vb int64) {
+		jobs = append(jobs, Job{Pkg: "root", Func: "VerifC09Pair", Args: []int64{a, va, b, vb}, Cfg: c, Threads: true, Reach: r})
+	}
+	pv := []int64{0, 1, 4}
+	if tier == "thorough" {
+		pv = []int64{0, 1, 2, 3, 4}
+	}
+	for b := int64(1); b <= 14; b++ { // the packet loop against every other operation
+		if b == 12 {
+			continue // DHCPv4Update is called by the DHCP handler from inside the packet loop: never concurrent with Parse
+		}
+		for _, va := range pv {
+			add(0, va, b, 0)
+			if tier == "thorough" && b >= 2 && b != 3 && b != 11 && b != 14 {
+				add(0, va, b, 1)
+			}
+		}
+	}
+	for a := int64(1); a <= 14; a++ { // every pair of control / query operations (incl. purge and Close)
+		for b := a; b <= 14; b++ {
+			if tier != "thorough" && a != 1 && b != 14 && !(a == 12 || a == 13 || a == 6 || a == 7 || a == 10) {
+				continue // quick tier: pairs of pure readers are left to the thorough tier
+			}
+			if a == 12 && b == 12 {
+				continue // one packet loop: DHCPv4Update is never concurrent with itself
+			}
+			add(a, 0, b, 0)
+		}
+	}
+	if tier == "thorough" {
+		for _, va := range []int64{0, 1, 4} {
+			for _, x := range []int64{2, 6, 12, 13, 14} {
+				jobs = append(jobs, Job{Pkg: "root", Func: "VerifC09Triple", Args: []int64{va, x, 0}, Cfg: c, Threads: true, Reach: r})
+			}
+		}
+	}
+	return jobs
+}
+
+func init() {
+	register(&Prop{
+		ID:        "C09",
+		Technique: "bounded-schedule symbolic execution (thread mode of gse): goroutines of the real code run as cooperative threads over one symbolic state; context switches before every acquiring / blocking synchronisation operation, scheduler choices forked like data decisions within a preemption bound; a vector-clock happens-before relation (go, Mutex / RWMutex with writer preference, channels, WaitGroup) checked at every heap access (predictive data-race detection), deadlock = no runnable thread, C05 invariants asserted at quiescence; races and deadlocks are replayed with real goroutines under the Go race detector",
+		Jobs:      threadJobs,
+		Bounds: func(tier string) map[string]string {
+			m := map[string]string{
+				"threads":  "2 goroutines (thorough: also 3: packet loop + purge + one API caller), one operation each, started from a table with MAC1{2 IPv4 hosts} and MAC2{1 host} whose online flags and ages are symbolic",
+				"ops":      "packet loop (Parse+Notify of a frame refreshing a host / claiming another MAC's address / from a new host), purge(now), FindIP, GetHosts, FindByMAC, FindMACEntry, Capture, Release, IsCaptured, IPAddrs, DHCP offer accessors, PrintTable, DHCPv4Update, Host.UpdateMDNSName, Close",
+				"schedule": "quick: non-preemptive schedules (every order in which threads start / resume after blocking); thorough: one preemption at any acquire. The happens-before race check is schedule independent for the code executed on a path",
+			}
+			return m
+		},
+		Assumptions: []string{
+			"data-race freedom is judged by happens-before over the explored paths (no memory-model subtleties; atomics are synchronisation free accesses that never race)",
+			"fastlog and fmt output are stubbed: races inside logging are not seen",
+			"background goroutines (purgeLoop, handler loops) are represented by direct calls of their bodies (purge(now)) in a harness thread",
+			"supported pattern: ONE goroutine runs Parse / Notify / DHCPv4Update (the DHCP handler calls it from the packet loop); they are not run concurrently with each other (the check-then-act window of findOrCreateHostWithLock between its read-locked lookup and its write-locked insert is therefore outside the property)",
+		},
+		Outside: []string{"more than 3 goroutines / more than one operation per goroutine", "handler packages (ARP / ICMPv6 / DHCP / DNS handler locks): session level only", "schedules beyond the preemption bound", "Close stopping real background goroutines (timers)"},
+	})
+}
